@@ -502,7 +502,10 @@ class ParserBinary(ParserBase):
             if milliseconds:
                 millis = value % 1000
                 value //= 1000
-            value = datetime.datetime.fromtimestamp(0x00000000ffffffff & value, dateutil.tz.UTC)
+            try:
+                value = datetime.datetime.fromtimestamp(value, dateutil.tz.UTC)
+            except (OverflowError, ValueError, OSError) as e:
+                six.raise_from(InvalidValue(value, type(self), name), e)
             if milliseconds:
                 value += datetime.timedelta(milliseconds=millis)
             self._parsed_values[name] = value
